@@ -19,6 +19,7 @@ import (
 	"fmt"
 	"math/big"
 	"math/rand"
+	"os"
 	"sort"
 	"strings"
 
@@ -30,10 +31,12 @@ import (
 	"github.com/lightninglabs/lndclient"
 	"github.com/lightninglabs/pool/account"
 	"github.com/lightninglabs/pool/auctioneerrpc"
+	"github.com/lightninglabs/pool/clientdb"
 	"github.com/lightninglabs/pool/internal/test"
 	"github.com/lightninglabs/pool/order"
 	"github.com/lightninglabs/pool/poolscript"
 	"github.com/lightninglabs/pool/sidecar"
+	"github.com/lightninglabs/pool/terms"
 	"github.com/lightningnetwork/lnd/fn/v2"
 	"github.com/lightningnetwork/lnd/input"
 	"github.com/lightningnetwork/lnd/keychain"
@@ -70,6 +73,8 @@ type bOurs struct {
 	// earlier batches; 0 = same as unfulfilled) and the offer of its sidecar ticket
 	Units          uint64 `json:"units"`
 	TicketPushAmt  int64  `json:"ticketPushAmt"`
+	// harness only: identity key of the sidecar ticket's recipient node ("" = not set)
+	SidecarNodeKey string `json:"sidecarNodeKey"`
 	TicketCapacity int64  `json:"ticketCapacity"`
 }
 
@@ -176,6 +181,11 @@ type bCase struct {
 	MarketOrder []uint32 `json:"marketOrder"`
 	Oracle      bOracle  `json:"oracle"`
 	Devs   []string `json:"devs"` // harness only: deviations applied
+	// harness only: the orders live in a REAL clientdb store; orders with units > unfulfilled
+	// got there through an earlier staged + completed batch. env.orders of the op line is
+	// what that store returns, the oracles judge by the terms the trader submitted.
+	RealStore bool `json:"realStore"`
+	intended  []bOurs
 }
 
 // ---------------------------------------------------------------- keys
@@ -239,10 +249,15 @@ type bStore struct {
 	order.Store
 	orders map[order.Nonce]order.Order
 	visits []string
+	real   *clientdb.DB
+	realDir string
 }
 
 func (s *bStore) GetOrder(n order.Nonce) (order.Order, error) {
 	s.visits = append(s.visits, hex.EncodeToString(n[:]))
+	if s.real != nil {
+		return s.real.GetOrder(n)
+	}
 	o, ok := s.orders[n]
 	if !ok {
 		return nil, fmt.Errorf("order not found")
@@ -401,10 +416,106 @@ func (c *bCase) install(s *bSession) error {
 				return err
 			}
 			bid.SidecarTicket = &sidecar.Ticket{Offer: offer, Recipient: &sidecar.Recipient{MultiSigPubKey: k}}
+			if o.SidecarNodeKey != "" {
+				nk, err := bParseKey(o.SidecarNodeKey)
+				if err != nil {
+					return err
+				}
+				bid.SidecarTicket.Recipient.NodePubKey = nk
+			}
 		}
 		s.store.orders[n] = bid
 	}
+	if c.RealStore {
+		if err := c.installRealStore(s); err != nil {
+			// never let the store setup stop the stream: fall back to the mock store
+			s.store.closeReal()
+			c.RealStore = false
+			if c.intended != nil {
+				c.Env.Orders, c.intended = c.intended, nil
+			}
+		}
+	}
 	return nil
+}
+
+// installRealStore puts the orders into a fresh clientdb database the way they
+// get there in production: SubmitOrder of the full order, then – for an order
+// that is partially filled – a staged and completed earlier batch.
+func (c *bCase) installRealStore(s *bSession) error {
+	base := ""
+	if st, err := os.Stat("/dev/shm"); err == nil && st.IsDir() {
+		base = "/dev/shm"
+	}
+	dir, err := os.MkdirTemp(base, "verif-batch-db")
+	if err != nil {
+		return err
+	}
+	db, err := clientdb.New(dir, "pool.db")
+	if err != nil {
+		return err
+	}
+	s.store.real = db
+	s.store.realDir = dir
+	var nonces []order.Nonce
+	var mods [][]order.Modifier
+	for n, o := range s.store.orders {
+		left := o.Details().UnitsUnfulfilled
+		if o.Details().Units > left {
+			o.Details().UnitsUnfulfilled = o.Details().Units
+			nonces = append(nonces, n)
+			mods = append(mods, []order.Modifier{
+				order.UnitsFulfilledModifier(left), order.StateModifier(order.StatePartiallyFilled),
+			})
+		}
+		if err := db.SubmitOrder(o); err != nil {
+			return err
+		}
+	}
+	if len(nonces) > 0 {
+		earlier := &order.Batch{
+			ID:             order.BatchID(bHex33(bKeyHex(bKeyBatchID + 70))),
+			Version:        order.BatchVersion(c.Env.Version),
+			MatchedOrders:  map[order.Nonce][]*order.MatchedOrder{},
+			ExecutionFee:   terms.NewLinearFeeSchedule(1, 1),
+			ClearingPrices: map[uint32]order.FixedRatePremium{},
+			BatchTX:        wire.NewMsgTx(2),
+		}
+		if err := db.StorePendingBatch(earlier, nonces, mods, nil, nil); err != nil {
+			return err
+		}
+		if err := db.MarkBatchComplete(); err != nil {
+			return err
+		}
+	}
+	// what the store returns is what Verify (and the model) work with
+	c.intended = append([]bOurs{}, c.Env.Orders...)
+	for i := range c.Env.Orders {
+		o := &c.Env.Orders[i]
+		var n order.Nonce
+		nb, _ := hex.DecodeString(o.Nonce)
+		copy(n[:], nb)
+		so, err := db.GetOrder(n)
+		if err != nil {
+			continue
+		}
+		d := so.Details()
+		o.UnitsUnfulfilled, o.MinUnitsMatch = uint64(d.UnitsUnfulfilled), uint64(d.MinUnitsMatch)
+		o.Rate, o.Duration, o.AuctionType = d.FixedRate, d.LeaseDuration, uint32(d.AuctionType)
+		o.ChanType = uint8(d.ChannelType)
+		if b, ok := so.(*order.Bid); ok {
+			o.SelfChanBalance = int64(b.SelfChanBalance)
+		}
+	}
+	return nil
+}
+
+func (s *bStore) closeReal() {
+	if s.real != nil {
+		_ = s.real.Close()
+		_ = os.RemoveAll(s.realDir)
+		s.real, s.realDir = nil, ""
+	}
 }
 
 func bServerOrder(t *bTheir) *auctioneerrpc.ServerOrder {
@@ -827,6 +938,14 @@ func (c *bCase) run(r *Run, s *bSession) bResult {
 		exp = "ok pending=" + res.pending
 	}
 	r.Emit(r.Prop+" validate "+string(js), exp)
+	if c.intended != nil {
+		for i := range c.intended {
+			c.intended[i].DerivedKey, c.intended[i].AcctKeyParses = c.Env.Orders[i].DerivedKey, c.Env.Orders[i].AcctKeyParses
+		}
+		c.Env.Orders, c.intended = c.intended, nil
+		r.Count("real-store")
+	}
+	s.store.closeReal()
 	r.Evaluations++
 	r.Count("class/" + res.class)
 	return res
@@ -1329,6 +1448,15 @@ func runBatch(r *Run) {
 	}
 	newSession(uint32(order.LatestBatchVersion))
 
+	// history: the earlier proposals of the session (same manager); part of every replay
+	var history []*bCase
+	type bReplay struct {
+		bCase
+		History []*bCase `json:"history"`
+	}
+	replayOf := func(c *bCase) interface{} {
+		return bReplay{bCase: *c, History: append([]*bCase{}, history...)}
+	}
 	evaluate := func(c *bCase, res bResult, fixed bool) {
 		canon, _ := json.Marshal(struct {
 			E bEnv
@@ -1345,7 +1473,7 @@ func runBatch(r *Run) {
 		}
 		r.Count(fmt.Sprintf("ndev/%d", len(c.Devs)))
 		if res.class == "panic" {
-			r.Violate("OrderMatchValidate panicked", r.Prop+"/panic", c)
+			r.Violate("OrderMatchValidate panicked", r.Prop+"/panic", replayOf(c))
 			return
 		}
 		if strings.HasPrefix(res.class, "unclassified") {
@@ -1353,10 +1481,10 @@ func runBatch(r *Run) {
 		}
 		// pending batch must be set iff accepted
 		if res.class == "ok" && res.pending != c.Msg.ID {
-			r.Violate("accepted batch is not the pending batch", r.Prop+"/pending", c)
+			r.Violate("accepted batch is not the pending batch", r.Prop+"/pending", replayOf(c))
 		}
 		if res.class != "ok" && res.pending != res.before {
-			r.Violate("a rejected batch replaced the pending batch", r.Prop+"/pending", c)
+			r.Violate("a rejected batch replaced the pending batch", r.Prop+"/pending", replayOf(c))
 		}
 		if res.class != "ok" {
 			return
@@ -1372,42 +1500,66 @@ func runBatch(r *Run) {
 		switch r.Prop {
 		case "C01":
 			if w := c.oracleC01(); w != "" {
-				r.Violate("accepted batch: "+w, "C01/terms", orig)
+				r.Violate("accepted batch: "+w, "C01/terms", replayOf(orig))
 			}
 		case "C02":
 			if w, key := c.oracleC02(); w != "" {
-				r.Violate("accepted batch: "+w, key, orig)
+				r.Violate("accepted batch: "+w, key, replayOf(orig))
 			}
 		case "C03":
 			if w := c.oracleC03(); w != "" {
-				r.Violate("accepted batch: "+w, "C03/funding", orig)
+				r.Violate("accepted batch: "+w, "C03/funding", replayOf(orig))
 			}
 		}
 	}
 
 	for _, raw := range r.FixedCases() {
-		var c bCase
-		if err := json.Unmarshal(raw, &c); err != nil {
+		var rc bReplay
+		if err := json.Unmarshal(raw, &rc); err != nil {
 			r.Notes = append(r.Notes, "bad fixed case: "+err.Error())
 			continue
 		}
+		c := rc.bCase
 		newSession(c.Env.Version)
+		// first the earlier proposals this manager saw
+		history = nil
+		for _, hc := range rc.History {
+			hc.run(r, sess)
+			history = append(history, hc)
+		}
 		res := c.run(r, sess)
 		r.Count("fixed")
 		evaluate(&c, res, true)
+		history = nil
 	}
 	if r.ReplayFile != "" {
 		return
 	}
 
 	g := &bGen{rng: r.Rng, search: r.Search, prop: r.Prop}
-	for i := 0; i < r.N; i++ {
+	var prev *bCase
+	for i := 0; i < r.N && len(r.Violations) < 20; i++ {
 		if i%8 == 0 {
 			newSession(g.pickVersion())
+			prev = nil
+			history = nil
 		}
-		c := g.genCase(sess.version, i)
+		var c *bCase
+		if prev != nil && r.Rng.Intn(3) == 0 {
+			// the auctioneer sends another prepare message for the SAME batch ID to the
+			// same long-lived manager (re-proposal), possibly after the database changed
+			c = g.reproposal(prev)
+			r.Count("reproposal")
+		} else {
+			c = g.genCase(sess.version, i)
+		}
 		res := c.run(r, sess)
 		evaluate(c, res, false)
+		if res.class == "ok" && len(c.Devs) > 0 && strings.HasPrefix(c.Devs[0], "reproposal") {
+			r.Count("acc/" + c.Devs[0])
+		}
+		prev = c
+		history = append(history, c)
 	}
 	sess.mgr.Stop()
 }
